@@ -149,6 +149,12 @@ pub fn classify_offset(s: &str) -> Class {
     if let Some(o) = parse_offset_canonical(s) {
         return Class::Canonical(o);
     }
+    // a canonical offset followed by further (non-blank) characters: `+09:00x`, `+0900 JST`, `+09:00:00`
+    for n in [6usize, 5] {
+        if s.len() > n && s.is_char_boundary(n) && parse_offset_canonical(&s[..n]).is_some() && !s[n..].trim().is_empty() {
+            return Class::Invalid;
+        }
+    }
     let b = s.as_bytes();
     match b.first() {
         None => Class::Invalid, // empty
@@ -201,7 +207,11 @@ const TO_GREY: &[&str] = &[
     "2024-03-01 00:00:00.5",
 ];
 
-const OFF_INVALID: &[&str] = &["", "UTC", "JST", "abc", "0900", "09:00", "+", "-", "+ab:cd", "+:00"];
+const OFF_INVALID: &[&str] = &[
+    "", "UTC", "JST", "abc", "0900", "09:00", "+", "-", "+ab:cd", "+:00",
+    // a valid offset with trailing characters
+    "+09:00x", "+0900 JST", "+09:00:00", "+0900Z", "-05:00 EST", "+09:000", "+00:00+00:00",
+];
 const OFF_GREY: &[&str] = &["+9:00", "+24:00", "+0960", "+09", "\u{2212}09:00", "+09:00 ", " +09:00", "Z", "+09 00", "+99:00", "+090"];
 
 /// Wall-clock bases around which `to` values cluster (day / month / year / leap-day boundaries).
@@ -413,6 +423,12 @@ fn with_parents(doc: &Doc) -> Vec<(Option<u32>, &Elem)> {
         for n in nodes {
             if let Node::Elem(e) = n {
                 out.push((parent, e));
+                // inline elements nested inside an inline element
+                let mut up = e;
+                while let Some(c) = up.inline_child.as_deref() {
+                    out.push((Some(up.id), c));
+                    up = c;
+                }
                 walk(&e.children, Some(e.id), out);
             }
         }
